@@ -739,7 +739,6 @@ Definition okl (l : line) : bool :=
   | LHidden n => name_ok n
   | LField n k => name_ok n && match k with KBit i => plain_code i | KLinterp i _ => plain_code i | KRaw _ => true end
   | LAlias n t => name_ok n && plain_code t
-  | LInclude a _ => negb (dotns_tok (in_px a))
   | _ => true
   end.
 
